@@ -244,7 +244,7 @@ from tdda.referencetest import ReferenceTestCase, tag
 LOG = os.environ['VT_LOG']
 def hit(who, name):
     with open(LOG, 'a') as f:
-        f.write('%s.%s %d\\n' % (who, name, os.getpid()))
+        f.write('%s%s.%s %d\\n' % (MODTAG, who, name, os.getpid()))
 '''
 
 
@@ -273,8 +273,8 @@ def gen_pytest_module(rng):
     return items
 
 
-def pytest_module_source(items):
-    s = [PT_HEADER]
+def pytest_module_source(items, modtag=''):
+    s = [PT_HEADER, 'MODTAG = %r' % modtag]
     for it in items:
         if it['tagged']:
             s.append('@tag')
@@ -331,11 +331,24 @@ def run_pytest_case(ctx, case):
     path = os.path.join(d, 'test_ptmod.py')
     with open(path, 'w') as f:
         f.write(pytest_module_source(case['items']))
+    path2 = os.path.join(d, 'test_ptmod2.py')
+    if case.get('items2'):
+        # a second module in the same session, with classes of the SAME names
+        with open(path2, 'w') as f:
+            f.write(pytest_module_source(case['items2'], 'm2:'))
+    elif os.path.exists(path2):
+        os.unlink(path2)
     log = os.path.join(d, 'hits.log')
     if os.path.exists(log):
         os.unlink(log)
     mode = case['mode']
     want, listed = pytest_expected(case['items'], mode)
+    listed = None if listed is None else set(('test_ptmod', x) for x in listed)
+    if case.get('items2'):
+        w2, l2 = pytest_expected(case['items2'], mode)
+        want = want + ['m2:' + x for x in w2]
+        if listed is not None:
+            listed |= set(('test_ptmod2', x) for x in l2)
     every, _ = pytest_expected(case['items'], 'all')
     tg, _ = pytest_expected(case['items'], 'tagged')
     kinds = sorted(set(it['what'] if it['what'] == 'func' else ('rtc-class' if it['base'] == 'ReferenceTestCase' else 'class') for it in case['items']))
@@ -344,7 +357,7 @@ def run_pytest_case(ctx, case):
                   ('pytest_items=' + '+'.join(kinds),)])
     forkserver.warm(extra=('pytest', '_pytest.config', '_pytest.main', '_pytest.python', 'tdda.referencetest.pytestconfig'))
     env = {'VT_LOG': log, 'TDDA_FAIL_DIR': d, 'PYTEST_DISABLE_PLUGIN_AUTOLOAD': '1'}
-    res = forkserver.fork_run(pytest_main, ['pytest', '-p', 'no:cacheprovider'] + case['argv_pre'] + [path] + case['argv'],
+    res = forkserver.fork_run(pytest_main, ['pytest', '-p', 'no:cacheprovider'] + case['argv_pre'] + [path] + ([path2] if case.get('items2') else []) + case['argv'],
                               cwd=d, env=env, scratch=ctx.scratch)
     rec.event('runs:pytest_driven')
     if res.timed_out:
@@ -363,7 +376,7 @@ def run_pytest_case(ctx, case):
         return
     if mode == 'list':
         rec.event('listing:checked')
-        named = set(m.group(1) for m in re.finditer(r'^test_ptmod\.(\w+)\s*$', res.out, re.M))
+        named = set((m.group(1), m.group(2)) for m in re.finditer(r'^(test_ptmod2?)\.(\w+)\s*$', res.out, re.M))
         if named != listed:
             rec.violation('listing_names', {'case': case, 'mech': mech, 'facts': dict(facts, listed=sorted(named), want=sorted(listed))})
 
@@ -379,7 +392,10 @@ def gen_pytest_case(rng, i):
     pre, post = [], []
     for f in other + flags + ['-s']:
         (pre if rng.random() < 0.5 else post).append(f)
-    return {'items': gen_pytest_module(rng), 'mode': mode, 'argv_pre': pre, 'argv': post, 'via': 'pytest'}
+    case = {'items': gen_pytest_module(rng), 'mode': mode, 'argv_pre': pre, 'argv': post, 'via': 'pytest'}
+    if rng.random() < 0.4:
+        case['items2'] = gen_pytest_module(rng)
+    return case
 
 
 # ------------------------------------------------------------------------------------------------------------
